@@ -249,7 +249,73 @@ def run_batch(specs, runner):
 # ----------------------------------------------------------------------------- ParallelTemperingOptimizer (GFO.Model.Population)
 
 POP = {"ParallelTemperingOptimizer": ("pt", "systems"), "ParticleSwarmOptimizer": ("pso", "particles"),
-       "SpiralOptimization": ("spiral", "particles")}
+       "SpiralOptimization": ("spiral", "particles"), "EvolutionStrategyOptimizer": ("es", "individuals"),
+       "DifferentialEvolutionOptimizer": ("de", "individuals"), "GeneticAlgorithmOptimizer": ("ga", "individuals")}
+EA = ("es", "de", "ga")
+
+
+class _RandomModProxy:
+    """stands in for the name `random` of one EA module: integer draws / random() / sample are recorded"""
+
+    def __init__(self, tape, holder, record_sample):
+        self._tape, self._holder, self._rs = tape, holder, record_sample
+
+    def __getattr__(self, name):
+        return getattr(random, name)
+
+    def randint(self, a, b):
+        k = random.randint(a, b)
+        self._tape.add("i", str(int(k)))
+        return k
+
+    def choice(self, seq):
+        seq = list(seq)
+        x = random.choice(seq)
+        if isinstance(x, (int, np.integer)):
+            self._tape.add("i", str(int(x)))
+        else:
+            self._tape.add("i", str([i for i, y in enumerate(seq) if y is x][0]))
+        return x
+
+    def random(self):
+        x = random.random()
+        self._tape.add("u", tok_rat(x))
+        return x
+
+    def sample(self, population, k):
+        out = random.sample(population, k)
+        if self._rs:
+            members = self._holder["members"]
+            self._tape.add("g", " ".join([str(len(out))] + [str([i for i, y in enumerate(members) if y is o][0]) for o in out]))
+        return out
+
+
+class _NpRandomProxy:
+    def __init__(self, tape, holder):
+        self._tape, self._holder = tape, holder
+
+    def __getattr__(self, name):
+        return getattr(np.random, name)
+
+    def uniform(self, low=0.0, high=1.0, size=None):
+        x = np.random.uniform(low=low, high=high, size=size)
+        self._tape.add("n", tok_rat(x))
+        return x
+
+    def choice(self, a, *args, **kw):
+        x = np.random.choice(a, *args, **kw)
+        acc = self._holder.get("choice_acc")
+        if acc is not None:
+            acc.append(int(x))
+        return x
+
+
+class _NpModProxy:
+    def __init__(self, tape, holder):
+        self.random = _NpRandomProxy(tape, holder)
+
+    def __getattr__(self, name):
+        return getattr(np, name)
 
 
 class _NpProxy:
@@ -285,7 +351,35 @@ def run_pop_scenario(spec):
                     tape.add("p", _ipos(pos) + " " + " ".join(tok_f(x) for x in np.asarray(velo, dtype=float).ravel()))
                     return _orig(pos, velo)
                 m._move_part = move_part
-        if kind in ("pso", "spiral"):
+        holder["members"] = members
+        if kind in EA:
+            orig_sort = opt.sort_pop_best_score
+
+            def sort_pop():
+                r_ = orig_sort()
+                perm = [[i for i, y in enumerate(members) if y is o][0] for o in opt.pop_sorted]
+                tape.add("o", " ".join([str(len(perm))] + [str(i) for i in perm]))
+                return r_
+            opt.sort_pop_best_score = sort_pop
+            orig_rec = opt.discrete_recombination
+
+            def recombination(parent_pos_l, crossover_rates=None):
+                holder["choice_acc"] = []
+                out_ = orig_rec(parent_pos_l, crossover_rates)
+                acc = holder["choice_acc"]
+                holder["choice_acc"] = None
+                tape.add("h", " ".join([str(len(acc))] + [str(c) for c in acc]))
+                return out_
+            opt.discrete_recombination = recombination
+            if kind == "de":
+                orig_mut = opt.mutation
+
+                def mutation(*a, **k):
+                    v = orig_mut(*a, **k)
+                    tape.add("m", " ".join(tok_f(x) for x in np.asarray(v, dtype=float).ravel()))
+                    return v
+                opt.mutation = mutation
+        if kind in ("pso", "spiral") + EA:
             orig_nic = opt.conv.not_in_constraint
 
             def not_in_constraint(pos):
@@ -294,21 +388,36 @@ def run_pop_scenario(spec):
                 return ok
             opt.conv.not_in_constraint = not_in_constraint
     import gradient_free_optimizers.optimizers.pop_opt._spiral as spm
-    saved_np = spm.np
+    import gradient_free_optimizers.optimizers.pop_opt._evolutionary_algorithm as eam
+    import gradient_free_optimizers.optimizers.pop_opt.evolution_strategy as esm
+    import gradient_free_optimizers.optimizers.pop_opt.genetic_algorithm as gam
+    import gradient_free_optimizers.optimizers.pop_opt.differential_evolution as dem
+    saved = [(spm, "np", spm.np), (eam, "np", eam.np), (esm, "np", esm.np), (esm, "random", esm.random),
+             (gam, "np", gam.np), (gam, "random", gam.random)]
     if kind == "spiral":
         spm.np = _NpProxy(tape)
+    if kind in EA:
+        eam.np = _NpModProxy(tape, holder)
+    if kind == "es":
+        esm.np = _NpModProxy(tape, holder)
+        esm.random = _RandomModProxy(tape, holder, False)
+    if kind == "ga":
+        gam.np = _NpModProxy(tape, holder)
+        gam.random = _RandomModProxy(tape, holder, True)
     try:
         with module_patches(tape):
             out = scen.run_scenario(spec, with_model=False, on_built=on_built)
     finally:
-        spm.np = saved_np
+        for mod, name, val in saved:
+            setattr(mod, name, val)
     real = out["real"]
     opt, rec, records, space = real["opt"], real["rec"], real["records"], real["space"]
     members = getattr(opt, attr)
     m0 = members[0]
     inits = holder["inits"]
-    n_swap = int(getattr(opt, "n_iter_swap", 1))
-    pnew = (f"pnew {kind} {opt.init.n_inits} {int(m0.n_neighbours)} {tok_rat(opt.rand_rest_p)} {n_swap} {len(inits)} " +
+    n_swap = int(getattr(opt, "n_iter_swap", 1)) if kind != "ga" else int(opt.offspring)
+    mrate = tok_rat(getattr(opt, "mutation_rate", 0)) if kind in ("es", "ga") else "0"
+    pnew = (f"pnew {kind} {opt.init.n_inits} {int(m0.n_neighbours)} {tok_rat(opt.rand_rest_p)} {n_swap} {mrate} {tok_rat(0.3)} {len(inits)} " +
             " ".join(f"{len(l)} " + " ".join(" ".join(str(x) for x in p) for p in l) for l in inits))
     pnew = " ".join(pnew.split())
     f = real["f"]
@@ -322,7 +431,8 @@ def run_pop_scenario(spec):
             expect.append("member " + tracker_core(m))
         pc = getattr(opt, "p_current", None)
         cur = [i for i, m in enumerate(members) if m is pc][0] if pc is not None else 0
-        expect.append(f"pop cur={cur} tapeLeft=0")
+        offs = getattr(opt, "offspring_l", []) if kind == "ga" else []
+        expect.append(f"pop cur={cur} tapeLeft=0 offspring=" + C.show_list([C.show_pos(o) for o in offs], str))
     out.update(lines=lines, expect=expect)
     out["tape_kinds"] = dict(tape.kinds)
     out["tape_len"] = len(tape.lines)
